@@ -455,7 +455,7 @@ func c08states(c *rig.Ctx) {
 	srv, err := sqlrig.Start(dataDir)
 	rig.Must(err)
 	tl := newTally()
-	n := c.Pick(12, 150)
+	n := c.Pick(12, 60)
 	repos := make([]*c08repo, n)
 	var vmu sync.Mutex
 	viol := func(key, what string, w any) {
